@@ -62,6 +62,16 @@ def compute_volume(mm):
     return vol
 
 
+def identify_bg_off(mm):
+    """Requirement function for background-corrected brightness
+
+    The optional feature "bg_off" is not listed in `req_features`, but
+    it must be part of the ancillary feature hash, so that the cached
+    data are recomputed when it is set or changed.
+    """
+    return [("bg_off", mm["bg_off"] if "bg_off" in mm else None)]
+
+
 def register():
     AncillaryFeature(feature_name="contour",
                      method=compute_contour,
@@ -77,19 +87,23 @@ def register():
 
     AncillaryFeature(feature_name="bright_bc_avg",
                      method=compute_bright_bc,
-                     req_features=["image", "image_bg", "mask"])
+                     req_features=["image", "image_bg", "mask"],
+                     req_func=identify_bg_off)
 
     AncillaryFeature(feature_name="bright_bc_sd",
                      method=compute_bright_bc,
-                     req_features=["image", "image_bg", "mask"])
+                     req_features=["image", "image_bg", "mask"],
+                     req_func=identify_bg_off)
 
     AncillaryFeature(feature_name="bright_perc_10",
                      method=compute_bright_perc,
-                     req_features=["image", "image_bg", "mask"])
+                     req_features=["image", "image_bg", "mask"],
+                     req_func=identify_bg_off)
 
     AncillaryFeature(feature_name="bright_perc_90",
                      method=compute_bright_perc,
-                     req_features=["image", "image_bg", "mask"])
+                     req_features=["image", "image_bg", "mask"],
+                     req_func=identify_bg_off)
 
     AncillaryFeature(feature_name="inert_ratio_cvx",
                      method=compute_inert_ratio_cvx,
